@@ -282,6 +282,38 @@ theorem Mono.setTempo {t : Rat} {x : Ctx} {s : S} (h : Mono t x s) (i : Nat) (v 
     simpa [S.secsOf, h1, h2] using this
   · exact key x.clk x.beats h.ctx
 
+/-- A sub-stream pull only touches routine records, draw counters and the trace. -/
+theorem runSub_frame (acts : List Act) (r : Nat) (s : S) :
+    (runSub s r acts).tempi = s.tempi ∧ (runSub s r acts).pend = s.pend ∧
+    (runSub s r acts).mainSecs = s.mainSecs := by
+  induction acts generalizing s with
+  | nil => exact ⟨rfl, rfl, rfl⟩
+  | cons a rest ih =>
+    unfold runSub
+    simp only
+    cases a with
+    | yield d => exact ⟨rfl, rfl, rfl⟩
+    | seed n => exact ih _
+    | draw => exact ih _
+    | _ => exact ih _
+
+theorem create_frame (s : S) (b r : Nat) :
+    (s.create b r).tempi = s.tempi ∧ (s.create b r).pend = s.pend ∧ (s.create b r).mainSecs = s.mainSecs := by
+  unfold S.create; split <;> exact ⟨rfl, rfl, rfl⟩
+
+theorem pull_frame (s : S) (b r : Nat) :
+    (s.pull b r).tempi = s.tempi ∧ (s.pull b r).pend = s.pend ∧ (s.pull b r).mainSecs = s.mainSecs := by
+  unfold S.pull
+  split
+  · exact ⟨rfl, rfl, rfl⟩
+  · simp only
+    split
+    · obtain ⟨h1, h2, h3⟩ := runSub_frame ((((s.create b r).rts r).script.drop ((s.create b r).rts r).pc)) r
+        ((s.create b r).setRt r { (s.create b r).rts r with state := .suspended, sub := true })
+      obtain ⟨c1, c2, c3⟩ := create_frame s b r
+      exact ⟨h1.trans c1, h2.trans c2, h3.trans c3⟩
+    · exact create_frame s b r
+
 /-- All deltas of a piece of script are non-negative. -/
 def NonNeg (acts : List Act) : Prop := ∀ d, Act.yield d ∈ acts → 0 ≤ d
 
@@ -349,6 +381,9 @@ theorem runActs_mono {t : Rat} {x : Ctx} (acts : List Act) (hn : NonNeg acts) {s
       exact h1.of_same rfl rfl rfl
     | seed n => exact ih' (h1.of_same rfl rfl rfl)
     | draw => exact ih' (h1.of_same rfl rfl rfl)
+    | pull r =>
+      obtain ⟨p1, p2, p3⟩ := pull_frame (s.bumpPc x.rid) x.rid r
+      exact ih' (h1.of_same p1 p2 p3)
 
 /-! ### Choosing the next task -/
 
@@ -485,6 +520,37 @@ theorem play_script (s : S) (b r : Nat) (c : Clk) (i : Nat) :
     ((s.play b r c).rts i).script = (s.rts i).script := by
   unfold S.play; rw [playNow_script, create_script]
 
+theorem runSub_script (acts : List Act) (r : Nat) (s : S) (i : Nat) :
+    ((runSub s r acts).rts i).script = (s.rts i).script := by
+  induction acts generalizing s with
+  | nil =>
+    unfold runSub; rw [setRt_script_eq]; split
+    · rename_i e; subst e; rfl
+    · rfl
+  | cons a rest ih =>
+    have hb := bumpPc_script s r
+    unfold runSub
+    simp only
+    cases a with
+    | yield d => exact hb i
+    | seed n =>
+      simp only; rw [ih, setRt_script_eq]; split
+      · rename_i e; subst e; exact hb i
+      · exact hb i
+    | draw => simp only; rw [ih]; exact hb i
+    | _ => simp only; rw [ih]; exact hb i
+
+theorem pull_script (s : S) (b r i : Nat) : ((s.pull b r).rts i).script = (s.rts i).script := by
+  unfold S.pull
+  split
+  · rfl
+  · simp only
+    split
+    · rw [runSub_script, setRt_script_eq]; split
+      · rename_i e; subst e; exact create_script s b i i
+      · exact create_script s b r i
+    · exact create_script s b r i
+
 theorem runActs_script (acts : List Act) (x : Ctx) (s : S) (i : Nat) :
     ((runActs s x acts).rts i).script = (s.rts i).script := by
   induction acts generalizing s with
@@ -533,6 +599,7 @@ theorem runActs_script (acts : List Act) (x : Ctx) (s : S) (i : Nat) :
     | signal c => simp only; rw [ih, schedAll_script]; exact hb i
     | seed n => simp only; rw [ih]; refine (hset _ _ _ ?_).trans (hb i); rfl
     | draw => simp only; rw [ih]; exact hb i
+    | pull r => simp only; rw [ih, pull_script]; exact hb i
 
 theorem exec_script (s : S) (e : Entry) (i : Nat) : ((s.exec e).rts i).script = (s.rts i).script := by
   unfold S.exec
@@ -602,7 +669,7 @@ theorem stepNrt_good {s : S} (h : Good s) :
 /-- Actions of the C05 statement: everything except pause / resume / wait / signal (which
     restart a routine from another routine's time and belong to C10 / C11). -/
 def Act.plain : Act → Bool
-  | .pause _ | .resume _ | .wait _ | .signal _ => false
+  | .pause _ | .resume _ | .wait _ | .signal _ | .pull _ => false
   | _ => true
 
 def deltaOf : Act → Rat
@@ -970,6 +1037,7 @@ theorem runActs_exact {x : Ctx} (acts : List Act) {s : S} (h : ExactRun s x)
     | resume r => simp [Act.plain] at hpl
     | wait c => simp [Act.plain] at hpl
     | signal c => simp [Act.plain] at hpl
+    | pull r => simp [Act.plain] at hpl
 
 /-- Executing ANY pending task (whichever clock thread the environment picks, or the one
     `main.process()` picks) keeps `Exact`. -/
@@ -1026,6 +1094,30 @@ theorem play_trace (s : S) (b r : Nat) (c : Clk) : (s.play b r c).trace = s.trac
   repeat' split
   all_goals rfl
 
+theorem runSub_trace_mono (acts : List Act) (r : Nat) (s : S) (ev : Ev) (h : ev ∈ s.trace) :
+    ev ∈ (runSub s r acts).trace := by
+  induction acts generalizing s with
+  | nil => exact h
+  | cons a rest ih =>
+    have hb : ev ∈ (s.bumpPc r).trace := h
+    unfold runSub
+    simp only
+    cases a with
+    | yield d => exact hb
+    | seed n => exact ih _ hb
+    | draw => exact ih _ (List.mem_cons_of_mem _ hb)
+    | _ => exact ih _ hb
+
+theorem pull_trace_mono (s : S) (b r : Nat) (ev : Ev) (h : ev ∈ s.trace) : ev ∈ (s.pull b r).trace := by
+  have hc : ev ∈ (s.create b r).trace := by unfold S.create; split <;> exact h
+  unfold S.pull
+  split
+  · exact h
+  · simp only
+    split
+    · exact runSub_trace_mono _ _ _ _ hc
+    · exact hc
+
 theorem runActs_trace_mono (acts : List Act) (x : Ctx) (s : S) (ev : Ev) (h : ev ∈ s.trace) :
     ev ∈ (runActs s x acts).trace := by
   induction acts generalizing s with
@@ -1061,7 +1153,7 @@ theorem runActs_trace_mono (acts : List Act) (x : Ctx) (s : S) (ev : Ev) (h : ev
     | signal c => simp only; apply ih; rw [schedAll_trace]; exact hb
     | seed n => exact ih _ hb
     | draw => exact ih _ (List.mem_cons_of_mem _ hb)
-
+    | pull r => exact ih _ (pull_trace_mono _ _ _ _ hb)
 
 /-! ### Every resume event ever logged carries the exact beat -/
 
@@ -1170,6 +1262,7 @@ theorem runActs_traceExact (acts : List Act) (x : Ctx) {s : S} (h : TraceExact s
     | resume r => simp [Act.plain] at hpl
     | wait c => simp [Act.plain] at hpl
     | signal c => simp [Act.plain] at hpl
+    | pull r => simp [Act.plain] at hpl
 
 /-- Executing a pending task whose beat obeys the law (`Exact`) keeps `TraceExact`. -/
 theorem exec_traceExact {s : S} (h : TraceExact s) (hE : Exact s) {e : Entry} (he : e ∈ s.pend) :
